@@ -1334,9 +1334,9 @@ impl PrettyPrint for Statement<'_> {
                         readable_return_type,
                     )
                     + body
-                    .as_ref()
-                    .map(|e| m::space() + m::operator("=") + m::space() + e.pretty_print())
-                    .unwrap_or_default()
+                        .as_ref()
+                        .map(|e| m::space() + m::operator("=") + m::space() + e.pretty_print())
+                        .unwrap_or_default()
                     + pretty_local_variables.unwrap_or_default()
             }
             Statement::Expression(expr) => expr.pretty_print(),
